@@ -22,7 +22,7 @@ from ..tlc import Workdir
 
 PROP = "C02"
 INVS = ["TypeOK", "PrefixOptimal", "PruneSound", "AdmissibleOnly", "BacktrackOptimal",
-        "OptRecIsOpt", "TableAdmissible"]
+        "OptRecIsOpt", "OptSeqIsOptRec", "TableAdmissible"]
 
 
 def base_consts(**kw):
@@ -272,11 +272,54 @@ def record_r3(seed, count, nmax):
     return out
 
 
+def record_long(seed, count):
+    """Long series (n 60..250) through the PELT class with built-in costs: behaviour that only shows after many
+    iterations (pruning over long horizons, accumulated back-pointers).  Validated with the sequence form OptSeq."""
+    from skchange.change_detectors.pelt import PELT
+    from skchange.costs import GaussianVarCost, L2Cost
+
+    rng = np.random.default_rng(seed)
+    out = []
+    for i in range(count):
+        n = int(rng.integers(60, 251))
+        p = int(rng.integers(1, 3))
+        which = int(rng.integers(0, 3))
+        mk, ms, name = [(lambda: L2Cost(), 1, "L2Cost()"), (lambda: GaussianVarCost(), 2, "GaussianVarCost()"),
+                        (lambda: L2Cost(param=0.0), 1, "L2Cost(0)")][which]
+        m = max(ms, int(rng.choice([1, 2, 5, 10])))
+        X = rng.integers(-3, 4, size=(n, p)).astype(float)
+        for _ in range(int(rng.integers(0, 6))):
+            k = int(rng.integers(1, n))
+            X[k:] += rng.integers(-4, 5, size=p)
+        if which == 1:
+            X = X + rng.integers(-2, 3, size=(n, p)) / 8.0
+        cuts = np.array([(s, e) for s in range(n) for e in range(s + m, n + 1)])
+        vals = mk().fit(X).evaluate(cuts).sum(axis=1)
+        det = PELT(cost=mk(), penalty_scale=float(rng.choice([0.3, 1.0, 2.0])), min_segment_length=m).fit(X)
+        cps = det.predict(X)["ilocs"].to_numpy()
+        scores = det.scores.to_numpy()
+        allv = list(vals) + [det.penalty_] + [float(x) for x in scores[m - 1:]]
+        if not all(math.isfinite(v) for v in allv):
+            continue
+        mag = max(1.0, max(abs(v) for v in allv))
+        unit = mag * (n + 4) / 2 ** 30
+        q = lambda v: int(round(v / unit))
+        C = [[0] * n for _ in range(n)]
+        for (s, e), v in zip(cuts, vals):
+            C[int(s)][int(e) - 1] = q(float(v))
+        out.append({"id": f"long-{seed}-{i}", "regime": "R3", "entry": "PELT", "cost": name, "n": n, "p": p, "m": m, "beta": q(det.penalty_),
+                    "tol": n + 3, "unit": unit, "C": C, "scores": [0 if k < m - 1 else q(float(x)) for k, x in enumerate(scores)],
+                    "cps": [int(c) for c in cps]})
+    return out
+
+
 def _rec(args):
     kind, seed, count, nmax = args
     import warnings
 
     warnings.filterwarnings("ignore")
+    if kind == "long":
+        return record_long(seed, count)
     return record_r1(seed, count, nmax) if kind == "r1" else record_r3(seed, count, nmax)
 
 
@@ -290,7 +333,8 @@ def run(tier: str) -> int:
                 "segmentations exist (tie) or pruning removed at least one start; distinct by hash "
                 "of (table, penalty, min_segment_length).")
     chk.assumptions = ["TLC/SANY and the Json module", "float64 is exact on the small integer tables",
-                       "R3: deviations below tol*unit (see trace record) are rounding, not defects"]
+                       "R3: deviations below tol*unit (see trace record) are rounding, not defects",
+                       "long series (n up to 250) are validated with the sequence form OptSeq, proved equal to OptRec by TLC on the small constants"]
     with Workdir(PROP) as wd:
         for label, consts, invs in STAGE_A[tier]:
             stages.model_check(chk, "Pelt", consts, invs, wd=wd, label="A:" + label, init="InitAll",
@@ -332,10 +376,12 @@ def run(tier: str) -> int:
         # stage C
         n_r1, n_r3 = (400, 400) if tier == "quick" else (8000, 8000)
         jobs = [("r1", chk.seed + k, n_r1 // 8, 14) for k in range(8)] + \
-               [("r3", chk.seed + 100 + k, n_r3 // 8, 14) for k in range(8)]
+               [("r3", chk.seed + 100 + k, n_r3 // 8, 14) for k in range(8)] + \
+               [("long", chk.seed + 200 + k, 1 if tier == "quick" else 12, 0) for k in range(8)]
         with ProcessPoolExecutor(max_workers=stages.NCPU) as ex:
             traces = [t for part in ex.map(_rec, jobs) for t in part]
-        verdicts = stages.validate_traces(chk, "Trace_Pelt", traces, wd=wd, label="C:pelt", batch=250)
+        verdicts = stages.validate_traces(chk, "Trace_Pelt", [t for t in traces if t["n"] <= 40], wd=wd, label="C:pelt", batch=250)
+        verdicts.update(stages.validate_traces(chk, "Trace_Pelt", [t for t in traces if t["n"] > 40], wd=wd, label="C:pelt-long", batch=4))
         for tr in traces:
             v = verdicts.get(tr["id"])
             key = sha([tr["n"], tr["m"], tr["beta"], tr["C"]])
